@@ -149,16 +149,45 @@ func phase1Sig(dir string, b *Block) (*sigInfo, error) {
 			continue
 		}
 		for _, d := range f.Decls {
-			fd, ok := d.(*ast.FuncDecl)
-			if !ok || fd.Name.Name != b.Name {
-				continue
+			var ftype *ast.FuncType
+			switch dd := d.(type) {
+			case *ast.FuncDecl:
+				if dd.Name.Name != b.Name || recvString(dd) != b.Recv {
+					continue
+				}
+				ftype = dd.Type
+				if b.Target == "funclit" {
+					if dd.Body == nil {
+						continue
+					}
+					lits := collectFuncLits(dd.Body)
+					if b.LitOrd < 1 || b.LitOrd > len(lits) {
+						continue
+					}
+					ftype = lits[b.LitOrd-1].Type
+				}
+			case *ast.GenDecl:
+				if b.Target != "funclit" || b.Recv != "" || dd.Tok != token.VAR {
+					continue
+				}
+				for _, sp := range dd.Specs {
+					vs := sp.(*ast.ValueSpec)
+					for i, id := range vs.Names {
+						if id.Name == b.Name && i < len(vs.Values) {
+							lits := collectFuncLits(vs.Values[i])
+							if b.LitOrd >= 1 && b.LitOrd <= len(lits) {
+								ftype = lits[b.LitOrd-1].Type
+							}
+						}
+					}
+				}
 			}
-			if recvString(fd) != b.Recv {
+			if ftype == nil {
 				continue
 			}
 			si := &sigInfo{}
-			if fd.Type.Results != nil {
-				for _, fl := range fd.Type.Results.List {
+			if ftype.Results != nil {
+				for _, fl := range ftype.Results.List {
 					var buf bytes.Buffer
 					printer.Fprint(&buf, fset, fl.Type)
 					cnt := len(fl.Names)
@@ -237,7 +266,7 @@ func synthFile(cf *ContractFile) (string, map[*Block]*sigInfo, []string) {
 	}
 	var vars strings.Builder
 	for _, b := range cf.Blocks {
-		if b.Target == "func" {
+		{
 			si, err := phase1Sig(cf.Dir, b)
 			if err != nil {
 				// may be a ghost function defined in this contract file: its results must be named.
@@ -436,7 +465,7 @@ func collectLoops(body *ast.BlockStmt) []ast.Stmt {
 	return out
 }
 
-func collectFuncLits(body *ast.BlockStmt) []*ast.FuncLit {
+func collectFuncLits(body ast.Node) []*ast.FuncLit {
 	var out []*ast.FuncLit
 	ast.Inspect(body, func(n ast.Node) bool {
 		if x, ok := n.(*ast.FuncLit); ok {
@@ -467,18 +496,62 @@ func (w *World) check(c *Contract, pos token.Pos, d *Directive, text string, sub
 func (w *World) resolve(c *Contract, si *sigInfo) error {
 	b := c.Block
 	fd := w.findDecl(c.Pkg, b.Recv, b.Name)
-	if fd == nil {
-		return fmt.Errorf("%s:%d: missing: function %s not found in package %s", b.File, b.Line, b.Key(), c.Pkg.PkgPath)
+	var container ast.Node
+	if fd != nil && fd.Body != nil {
+		container = fd.Body
 	}
-	if fd.Body == nil {
-		return fmt.Errorf("%s:%d: function %s has no body", b.File, b.Line, b.Key())
+	if fd == nil && b.Target == "funclit" && b.Recv == "" {
+		// function literal in the initialiser of a package-level variable
+		for _, f := range c.Pkg.Syntax {
+			for _, d := range f.Decls {
+				gd, ok := d.(*ast.GenDecl)
+				if !ok || gd.Tok != token.VAR {
+					continue
+				}
+				for _, sp := range gd.Specs {
+					vs := sp.(*ast.ValueSpec)
+					for i, id := range vs.Names {
+						if id.Name == b.Name && i < len(vs.Values) {
+							container = vs.Values[i]
+						}
+					}
+				}
+			}
+		}
+	}
+	if container == nil {
+		return fmt.Errorf("%s:%d: missing: function %s not found in package %s", b.File, b.Line, b.Key(), c.Pkg.PkgPath)
 	}
 	subst := map[string]string{}
 	for k, v := range b.GhostVar {
 		subst[k] = v
 	}
+	setResults := func(sig *types.Signature) error {
+		for i := 0; i < sig.Results().Len(); i++ {
+			rv := sig.Results().At(i)
+			if rv.Name() == "" || rv.Name() == "_" {
+				name := fmt.Sprintf("pvc_r_%s_%d", b.ID, i)
+				obj, _ := c.Pkg.Types.Scope().Lookup(name).(*types.Var)
+				if obj == nil {
+					return fmt.Errorf("internal: synthetic result var %s missing", name)
+				}
+				c.Results = append(c.Results, obj)
+				subst[fmt.Sprintf("result%d", i)] = name
+				if sig.Results().Len() == 1 {
+					subst["result"] = name
+				}
+			} else {
+				c.Results = append(c.Results, rv)
+				subst[fmt.Sprintf("result%d", i)] = rv.Name()
+				if sig.Results().Len() == 1 {
+					subst["result"] = rv.Name()
+				}
+			}
+		}
+		return nil
+	}
 	if b.Target == "funclit" {
-		lits := collectFuncLits(fd.Body)
+		lits := collectFuncLits(container)
 		if b.LitOrd < 1 || b.LitOrd > len(lits) {
 			return fmt.Errorf("%s:%d: missing: %s has %d function literals", b.File, b.Line, b.Name, len(lits))
 		}
@@ -486,6 +559,11 @@ func (w *World) resolve(c *Contract, si *sigInfo) error {
 		c.Outer = fd
 		c.Body = c.Lit.Body
 		c.FuncTyp = c.Lit.Type
+		if sig, ok := c.Pkg.TypesInfo.TypeOf(c.Lit).(*types.Signature); ok {
+			if err := setResults(sig); err != nil {
+				return err
+			}
+		}
 	} else {
 		c.Decl = fd
 		c.Body = fd.Body
@@ -575,10 +653,18 @@ func (w *World) resolve(c *Contract, si *sigInfo) error {
 			parts = append(parts, d.Expr[last:])
 			for _, p := range parts {
 				p = strings.TrimSpace(p)
-				p = strings.ReplaceAll(p, "[*]", "")
+				elems := strings.HasSuffix(p, "[*]")
+				p = strings.TrimSuffix(p, "[*]")
 				ce, err := w.check(c, bodyPos, d, p, subst)
 				if err != nil {
 					return err
+				}
+				// "x[*]" and a bare slice-typed identifier mean the elements of the slice;
+				// any other expression means the location itself.
+				if _, isID := ce.Expr.(*ast.Ident); isID || elems {
+					ce.Text = p + "[*]"
+				} else {
+					ce.Text = p
 				}
 				c.Assigns = append(c.Assigns, ce)
 			}
